@@ -18,9 +18,9 @@ from core import enc_bool, enc_opt, enc_str, enc_str_list
 
 PROPERTY = "C16"
 
-# CODE VARIANT FLAGS  (1 = the code as it stands today, 0 = the repaired code; see Model/Pretty.lean `Variant`)
-DROP_SUFFIX = 0  # F24: _Line.expand derives the closing line's suffix from the node instead of carrying its own
-ARRAY_LITERAL = 0  # F12: the empty form of array is the literal text "array({_object.typecode!r})"
+# CODE VARIANT FLAGS  (1 = rich 9.10.0 as found, 0 = the repaired code = what /repo contains now; see Model/Pretty.lean `Variant`)
+DROP_SUFFIX = 0  # F24: _Line.expand derives the closing line's suffix from the node instead of carrying its own (0: fix 376cec1)
+ARRAY_LITERAL = 0  # F12: the empty form of array is the literal text "array({_object.typecode!r})" (0: fix e5d1b9a)
 
 ARRAY_LITERAL_TEXT = "array({_object.typecode!r})"
 INDENTS = [4, 4, 1, 2, 0, 8]
@@ -557,13 +557,13 @@ MANIFEST = {
     "the Node.render loop, traverse over a heap of objects with identities, pretty_repr): the render loop terminates within "
     "weight(node)+2 steps and equals a structural specification (open / one item per line at +indent / close, recursively); "
     "layout_only: erasing indentation, line breaks and the blank after kept separators from the rendered lines gives exactly "
-    "the one-line form, so no comma/brace/key/leaf is lost or added (proved for the repaired variant, machine-checked "
-    "counter-example for today's code: F24); one line iff leaf/empty or (not expand_all and the one-line form fits); every kept "
+    "the one-line form, so no comma/brace/key/leaf is lost or added (proved for the repaired variant, which /repo contains now; machine-checked "
+    "counter-example for rich 9.10.0 as found, before fix 376cec1: F24); one line iff leaf/empty or (not expand_all and the one-line form fits); every kept "
     "container line fits max_width; expand_all leaves no container on one line; indentation is a whole multiple of indent_size "
     "with braces aligned and contents strictly deeper; traverse is total on every well-formed heap including cyclic ones, emits "
     "`...` exactly for containers on the current path, produces well-formed trees, and max_length/max_string abbreviations "
-    "show min(N,max) items/characters and report exactly N-max; F12 (empty array literal) as a machine-checked witness. "
-    "Tie: ~230k (quick) / millions (thorough) generated cases per run compare model and rich.pretty character for character "
+    "show min(N,max) items/characters and report exactly N-max; F12 (empty array literal, repaired by fix e5d1b9a) as a machine-checked witness. "
+    "Tie: ~250k (quick; evidence/C16.json: 254k compared) / millions (thorough) generated cases per run compare model and rich.pretty character for character "
     "(traverse on a heap description of the real object graph, Node.render, pretty_repr, and the Node/_Line methods on "
     "synthetic also ill-formed objects); on every case the real output is eval()-ed and compared for deep typed equality, "
     "compared with a statement-level reference printer up to the legal trailing comma, with repr() when it fits, and for "
@@ -574,7 +574,8 @@ MANIFEST = {
     "correspondence harness (heap/Node encoders, reference printer, deep equality); widths/indent/max_length/max_string are "
     "naturals (negative values answer `unmodelled`); identities = id() of containers; the width function is the generated "
     "CELL_WIDTHS table (C13). Not modelled: Pretty.__rich_measure__, install(), highlighting/indent guides (only that "
-    "Pretty.__rich_console__ and pprint pass their options to pretty_repr is checked). With today's code the check prints "
-    "VIOLATION for two genuine defects until pending_fixes/C16-*.diff are applied and the two CODE VARIANT FLAGS set to 0.",
+    "Pretty.__rich_console__ and pprint pass their options to pretty_repr is checked). On rich 9.10.0 as found the check printed "
+    "VIOLATION for two genuine defects (F24, F12); both are repaired in /repo (fixes 376cec1, e5d1b9a = pending_fixes/C16-*.diff) and the two "
+    "CODE VARIANT FLAGS hold the repaired value 0.",
     "design_ref": "DESIGN.md section 7, C16; section 8 F12, F24",
 }
